@@ -133,6 +133,7 @@ def explore(ctx):
     interpolatable_section(ctx)
     features_section(ctx)
     layer_section(ctx)
+    instance_section(ctx)
 
 
 def flat_contours(tt, name):
@@ -270,6 +271,63 @@ def layer_section(ctx):
                 break
             if tt["hmtx"][n] != ref["hmtx"][n] or not same_rendering(flat_contours(ref, n), flat_contours(tt, n), tol=1.5):
                 ctx.spec_failure(dict(case, glyph=n), "glyph %r of the layer renders / measures differently once %r are not exported" % (n, skip))
+                break
+
+
+def instance_section(ctx):
+    """static instances generated from a designspace (Instantiator.generate_instance, as fontmake does) and then compiled: the
+    DESIGNSPACE's public.skipExportGlyphs decides -- also when the default master's own lib carries another (older, shorter,
+    empty) list -- the listed glyphs are gone, nothing references them, the rest renders as without a skip list"""
+    import ufo2ft
+    from harness import dsgen
+    from ufo2ft.instantiator import Instantiator
+    from fontTools.designspaceLib import InstanceDescriptor
+    from fontTools.ttLib import TTFont
+    sq = lambda x, y, w, h: [[(Fr(x), Fr(y), "line"), (Fr(x + w), Fr(y), "line"), (Fr(x + w), Fr(y + h), "line"), (Fr(x), Fr(y + h), "line")]]
+    one = (Fr(1), Fr(0), Fr(0), Fr(1))
+    rng = ctx.subrng("instances")
+    for i in range(ctx.budget(8, 24)):
+        lib = ["ufoLib2", "defcon"][i % 2]
+        flavor = ["ttf", "otf"][(i // 2) % 2]
+        own = [["_old"], [], None, ["_old", "_part"]][(i // 4) % 4]
+
+        def master(k):
+            d = 20 * k
+            gl = [{"name": "_part", "unicodes": [], "width": Fr(200), "contours": sq(20, 0, 60 + d, 500), "components": [], "anchors": []},
+                  {"name": "_old", "unicodes": [0x7C], "width": Fr(210), "contours": sq(10, 0, 50 + d, 400), "components": [], "anchors": []},
+                  {"name": "A", "unicodes": [0x41], "width": Fr(600 + d), "contours": sq(300, 0, 100, 700), "anchors": [],
+                   "components": [("_part", one + (Fr(30 + d), Fr(0)))]},
+                  {"name": "B", "unicodes": [0x42], "width": Fr(620 + d), "contours": [], "anchors": [],
+                   "components": [("_part", one + (Fr(0), Fr(0))), ("_old", (Fr(-1), Fr(0), Fr(0), Fr(1), Fr(500), Fr(0)))]},
+                  {"name": "C", "unicodes": [0x43], "width": Fr(500), "contours": sq(0, 0, 200 + d, 200), "components": [], "anchors": []}]
+            lb = {} if own is None else {"public.skipExportGlyphs": list(own)}
+            return {"glyphs": gl, "glyphOrder": [g["name"] for g in gl], "lib": lb, "groups": {},
+                    "kerning": {("B", "_part"): Fr(-20 - k), ("_part", "B"): Fr(-10), ("A", "C"): Fr(-30 - k)},
+                    "info": {"familyName": "Fam", "styleName": "M%d" % k, "unitsPerEm": 1000, "ascender": 800, "descender": -200}}
+        ds, fonts = dsgen.make_designspace(rng, [master(0), master(2)], lib, instances=False)
+        ds.lib["public.skipExportGlyphs"] = ["_part", "_old"]
+        inst = InstanceDescriptor(); inst.familyName, inst.styleName, inst.location, inst.name = "Fam", "Mid", {"Weight": 500}, "mid"
+        case = {"function": "Instantiator.generate_instance + compile" + flavor.upper(), "lib": lib,
+                "designspace_skipExportGlyphs": ["_part", "_old"], "default_master_skipExportGlyphs": own}
+        ctx.count(); ctx.klass("instance from a designspace/%s/master's own list %r" % (flavor, own)); ctx.nontriv(("inst", i, ctx.scale))
+        comp = ufo2ft.compileTTF if flavor == "ttf" else ufo2ft.compileOTF
+        try:
+            ufo = Instantiator.from_designspace(ds).generate_instance(inst)
+            tt = comp(ufo, useProductionNames=False)
+            ufo2 = Instantiator.from_designspace(ds).generate_instance(inst)
+            ref = comp(ufo2, useProductionNames=False, skipExportGlyphs=[])
+            b = io.BytesIO(); tt.save(b); tt = TTFont(io.BytesIO(b.getvalue()))
+            b = io.BytesIO(); ref.save(b); ref = TTFont(io.BytesIO(b.getvalue()))
+        except Exception as e:
+            ctx.spec_failure(case, "raised %s: %s\n%s" % (type(e).__name__, e, traceback.format_exc()[-1000:]))
+            continue
+        order = tt.getGlyphOrder()
+        if order != [".notdef", "A", "B", "C"]:
+            ctx.spec_failure(dict(case, glyph_order=order), "the compiled instance has glyph order %r; the designspace does not export _part and _old" % order)
+            continue
+        for n in ("A", "B", "C"):
+            if tt["hmtx"][n][0] != ref["hmtx"][n][0] or not same_rendering(flat_contours(ref, n), flat_contours(tt, n), tol=1.5):
+                ctx.spec_failure(dict(case, glyph=n), "glyph %r of the instance renders / measures differently once the parts are not exported" % n)
                 break
 
 
